@@ -7,19 +7,39 @@
 #include "muggle/c/time/flow_controller.h"
 #include "muggle/c/time/fast_flow_controller.h"
 
-static int64_t g_now;      /* scenario time (ns or ticks) since controller creation */
-#define CLOCK_BASE_NS 5000000000000LL
+/* Scenario clock.  g_now is what the next read returns, relative to the base; EVERY read advances it by
+ * g_step, so a function that reads the clock k times leaves it k steps further (the number of reads per
+ * call is observable).  The base (absolute time at which g_now == 0) is chosen by the case, nanosecond part
+ * included, so that start_ts.tv_nsec is arbitrary and later readings may have a smaller tv_nsec (borrow). */
+static int64_t g_now;
+static int64_t g_step;
+static int64_t g_base_ns = 5000000000000LL;
+static uint64_t g_tick_base = 777000000000ULL;
+static int64_t take_reading(void)
+{
+	int64_t v = g_now;
+	g_now += g_step;
+	return v;
+}
 int __wrap_clock_gettime(clockid_t clk, struct timespec *ts)
 {
-	(void)clk;
-	int64_t v = CLOCK_BASE_NS + g_now;
+	int64_t v;
+	if (clk == CLOCK_MONOTONIC || clk == CLOCK_BOOTTIME
+#ifdef CLOCK_MONOTONIC_RAW
+		|| clk == CLOCK_MONOTONIC_RAW
+#endif
+	) {
+		v = g_base_ns + take_reading();
+	} else {
+		/* a settable clock (CLOCK_REALTIME, ...) may be stepped backwards at any moment: here it runs backwards */
+		v = 1700000000000000000LL - 1000 * take_reading();
+	}
 	ts->tv_sec = v / 1000000000LL;
 	ts->tv_nsec = v % 1000000000LL;
 	return 0;
 }
-#define TICK_BASE 777000000000ULL
-uint64_t muggle_rdtscp(void) { return TICK_BASE + (uint64_t)g_now; }
-uint64_t muggle_rdtsc(void) { return TICK_BASE + (uint64_t)g_now; }
+uint64_t muggle_rdtscp(void) { return g_tick_base + (uint64_t)take_reading(); }
+uint64_t muggle_rdtsc(void) { return g_tick_base + (uint64_t)take_reading(); }
 
 static int kind; /* 0 none, 1 ns, 2 fast */
 static muggle_flow_controller_t fc;
@@ -31,7 +51,7 @@ static void cleanup(void)
 	if (kind == 2) muggle_fast_flow_ctl_destroy(&ffc);
 	kind = 0;
 }
-static void case_begin(void) { kind = 0; g_now = 0; }
+static void case_begin(void) { kind = 0; g_now = 0; g_step = 0; g_base_ns = 5000000000000LL; g_tick_base = 777000000000ULL; }
 static void case_end(void) { cleanup(); }
 
 static void case_line(char *line)
@@ -40,36 +60,45 @@ static void case_line(char *line)
 	long long a = 0, b = 0, c = 0, d = 0;
 	if (sscanf(line, "%31s", op) != 1) return;
 	if (strcmp(op, "init") == 0) {
+		/* init ns <t> <n> <fwd> [<base_sec> <base_nsec>]  |  init fast <t> <n> <fwd> <tick_freq (may be fractional)> [<tick_base>] */
 		cleanup();
-		int nf = sscanf(line, "%*s %31s %lld %lld %lld %lld", k, &a, &b, &c, &d);
+		char w5[64] = "", w6[64] = "";
+		int nf = sscanf(line, "%*s %31s %lld %lld %lld %63s %63s", k, &a, &b, &c, w5, w6);
 		g_now = 0;
+		g_step = 0;
 		bool ok;
 		if (strcmp(k, "ns") == 0) {
+			if (nf >= 6) g_base_ns = strtoll(w5, NULL, 10) * 1000000000LL + strtoll(w6, NULL, 10);
 			ok = muggle_flow_ctl_init(&fc, a, (uint32_t)b, c);
 			if (ok) kind = 1;
 		} else {
-			ok = muggle_fast_flow_ctl_init(&ffc, a, (uint32_t)b, c, (double)(nf >= 5 ? d : 1));
+			if (nf >= 6) g_tick_base = strtoull(w6, NULL, 10);
+			ok = muggle_fast_flow_ctl_init(&ffc, a, (uint32_t)b, c, nf >= 5 ? strtod(w5, NULL) : 1.0);
 			if (ok) kind = 2;
 		}
 		printf("init %s\n", ok ? "ok" : "fail");
 		return;
 	}
 	if (kind == 0) { printf("noctl\n"); return; }
-	sscanf(line, "%*s %lld", &a);
+	/* cu / cfu <now> [<step>]: the clock is set to <now> and advances by <step> at every read during the call;
+	 * with a step the result line also carries the reading the NEXT read would get */
+	int na = sscanf(line, "%*s %lld %lld", &a, &b);
 	if (strcmp(op, "check") == 0) {
 		bool r = kind == 1 ? muggle_flow_ctl_check(&fc, a) : muggle_fast_flow_ctl_check(&ffc, a);
 		printf("%d\n", r ? 1 : 0);
 	} else if (strcmp(op, "update") == 0) {
 		if (kind == 1) muggle_flow_ctl_update(&fc, a); else muggle_fast_flow_ctl_update(&ffc, a);
 		printf("-\n");
-	} else if (strcmp(op, "cu") == 0) {
+	} else if (strcmp(op, "cu") == 0 || strcmp(op, "cfu") == 0) {
 		g_now = a;
-		bool r = kind == 1 ? muggle_flow_ctl_check_and_update(&fc) : muggle_fast_flow_ctl_check_and_update(&ffc);
-		printf("%d\n", r ? 1 : 0);
-	} else if (strcmp(op, "cfu") == 0) {
-		g_now = a;
-		bool r = kind == 1 ? muggle_flow_ctl_check_and_force_update(&fc) : muggle_fast_flow_ctl_check_and_force_update(&ffc);
-		printf("%d\n", r ? 1 : 0);
+		g_step = na >= 2 ? b : 0;
+		bool r;
+		if (op[1] == 'u')
+			r = kind == 1 ? muggle_flow_ctl_check_and_update(&fc) : muggle_fast_flow_ctl_check_and_update(&ffc);
+		else
+			r = kind == 1 ? muggle_flow_ctl_check_and_force_update(&fc) : muggle_fast_flow_ctl_check_and_force_update(&ffc);
+		if (na >= 2) printf("%d %lld\n", r ? 1 : 0, (long long)g_now);
+		else printf("%d\n", r ? 1 : 0);
 	} else {
 		printf("?\n");
 	}
